@@ -78,8 +78,8 @@ func c11SchemeScenarios(thorough bool) []sched.Scenario {
 			return b
 		}
 		scs = append(scs,
-			sched.Scenario{Cost: 250, Name: "kem/" + name + "/Decapsulate||Decapsulate", Setup: fresh, Threads: []func(interface{}) interface{}{decap(ct1), decap(ct2)}},
-			sched.Scenario{Cost: 250, Name: "kem/" + name + "/Encapsulate||Decapsulate||Public", Setup: fresh, Threads: []func(interface{}) interface{}{encap, decap(ct1), pub}})
+			sched.Scenario{Cost: 400, Name: "kem/" + name + "/Decapsulate||Decapsulate", Setup: fresh, Threads: []func(interface{}) interface{}{decap(ct1), decap(ct2)}},
+			sched.Scenario{Cost: 400, Name: "kem/" + name + "/Encapsulate||Decapsulate||Public", Setup: fresh, Threads: []func(interface{}) interface{}{encap, decap(ct1), pub}})
 	}
 	type sigShared struct {
 		pk sign.PublicKey
